@@ -105,5 +105,11 @@ func Glob(pattern, dst string, ignoreMatchers bool) (map[string]string, error) {
 		files[src] = globdst
 	}
 
+	if len(files) == 0 {
+		// every match was a directory (e.g. the pattern names a symbolic link
+		// to a directory): packaging nothing for the entry must not pass silently
+		return nil, ErrGlobNoMatch{pattern}
+	}
+
 	return files, nil
 }
